@@ -15,6 +15,8 @@ import Mathlib.Tactic.Ring
 import Mathlib.Tactic.Linarith
 import Mathlib.Tactic.FieldSimp
 import Mathlib.Tactic.Positivity
+import Mathlib.Tactic.SplitIfs
+import Mathlib.Tactic.Order
 
 set_option linter.unusedSectionVars false
 set_option linter.unusedSimpArgs false
@@ -580,4 +582,471 @@ theorem factors_isSome (n : Nat) (hn : 0 < n) : (factors n).isSome = true := by
       · have := pp.two_le; omega
       · have := pp.two_le; omega
 
+end MysticVerif.Ens
+
+/-! ## `random_samples` with a distribution: the resample loop -/
+namespace MysticVerif.Ens
+section DistSamples
+variable {K : Type} [LinearOrder K]
+
+theorem clipPt_range (x lo hi : K) (h : lo ≤ hi) : lo ≤ clipPt x lo hi ∧ clipPt x lo hi ≤ hi := by
+  unfold clipPt npMin npMax
+  split_ifs <;> constructor <;> order
+
+theorem onBound_false (x lo hi : K) : onBound x lo hi = false ↔ x ≠ lo ∧ x ≠ hi := by
+  simp only [onBound, decide_eq_false_iff_not, not_or, not_and, not_lt]
+  constructor
+  · rintro ⟨h1, h2⟩
+    constructor
+    · rintro rfl; exact h1 le_rfl le_rfl
+    · rintro rfl; exact h2 le_rfl le_rfl
+  · rintro ⟨h1, h2⟩
+    exact ⟨fun h h' => h1 (le_antisymm h' h), fun h h' => h2 (le_antisymm h' h)⟩
+
+/-- the three lists in lockstep -/
+def AllRows (P : K → K → List K → Prop) : List K → List K → List (List K) → Prop
+  | l :: lb, u :: ub, row :: rows => P l u row ∧ AllRows P lb ub rows
+  | _, _, _ => True
+
+def BoundsOk : List K → List K → Prop
+  | l :: lb, u :: ub => l ≤ u ∧ BoundsOk lb ub
+  | _, _ => True
+
+theorem AllRows.and {P Q : K → K → List K → Prop} : ∀ (lb ub : List K) (rows : List (List K)),
+    AllRows P lb ub rows → AllRows Q lb ub rows → AllRows (fun l u r => P l u r ∧ Q l u r) lb ub rows := by
+  intro lb ub rows
+  fun_induction AllRows P lb ub rows with
+  | case1 l lb u ub row rows ih => intro h1 h2; exact ⟨⟨h1.1, h2.1⟩, ih h1.2 h2.2⟩
+  | case2 => intros; simp [AllRows]
+
+def InR (l u : K) (row : List K) : Prop := ∀ x ∈ row, l ≤ x ∧ x ≤ u
+def OffB (l u : K) (row : List K) : Prop := ∀ x ∈ row, onBound x l u = false
+
+theorem clipRows_all : ∀ (lb ub : List K) (rows : List (List K)), BoundsOk lb ub →
+    AllRows InR lb ub (clipRows lb ub rows) := by
+  intro lb ub rows
+  fun_induction clipRows lb ub rows with
+  | case1 l lb u ub row rows ih =>
+    intro hb
+    refine ⟨?_, ih hb.2⟩
+    intro x hx
+    simp only [List.mem_map] at hx
+    obtain ⟨y, _, rfl⟩ := hx
+    exact clipPt_range y l u hb.1
+  | case2 => intros; simp [AllRows]
+
+theorem clipRows_map_length : ∀ (lb ub : List K) (rows : List (List K)),
+    rows.length ≤ lb.length → rows.length ≤ ub.length →
+    (clipRows lb ub rows).map List.length = rows.map List.length := by
+  intro lb ub rows
+  fun_induction clipRows lb ub rows with
+  | case1 l lb u ub row rows ih =>
+    intro h1 h2
+    simp only [List.length_cons, Nat.add_le_add_iff_right] at h1 h2
+    simp [ih h1 h2]
+  | case2 lb ub rows hne =>
+    intro h1 h2
+    cases rows with
+    | nil => rfl
+    | cons row rows =>
+      cases lb with
+      | nil => simp at h1
+      | cons l lb =>
+        cases ub with
+        | nil => simp at h2
+        | cons u ub => exact (hne l lb u ub row rows rfl rfl rfl).elim
+
+theorem fillRow_length (vals : Nat → K) (lo hi : K) : ∀ (row : List K) (k : Nat),
+    (fillRow vals lo hi k row).length = row.length := by
+  intro row
+  induction row with
+  | nil => intro k; rfl
+  | cons x xs ih =>
+    intro k
+    simp only [fillRow]
+    split <;> simp [ih]
+
+theorem redrawRows_map_length (draw : Nat → Nat → K) : ∀ (c : Nat) (lb ub : List K) (rows : List (List K)),
+    rows.length ≤ lb.length → rows.length ≤ ub.length →
+    (redrawRows draw c lb ub rows).2.map List.length = rows.map List.length := by
+  intro c lb ub rows
+  fun_induction redrawRows draw c lb ub rows with
+  | case1 c l lb u ub row rows h0 ih =>
+    intro h1 h2
+    simp only [List.length_cons, Nat.add_le_add_iff_right] at h1 h2
+    simp [ih h1 h2]
+  | case2 c l lb u ub row rows h0 ih =>
+    intro h1 h2
+    simp only [List.length_cons, Nat.add_le_add_iff_right] at h1 h2
+    simp [ih h1 h2, fillRow_length]
+  | case3 lb c ub rows hne =>
+    intro h1 h2
+    cases rows with
+    | nil => rfl
+    | cons row rows =>
+      cases lb with
+      | nil => simp at h1
+      | cons l lb =>
+        cases ub with
+        | nil => simp at h2
+        | cons u ub => exact (hne l lb u ub row rows rfl rfl rfl).elim
+
+theorem countBad_zero (lo hi : K) : ∀ row : List K, countBad lo hi row = 0 → OffB lo hi row := by
+  intro row
+  induction row with
+  | nil => intro _ x hx; simp at hx
+  | cons y ys ih =>
+    intro h x hx
+    simp only [countBad] at h
+    have hy : onBound y lo hi = false := by
+      cases hb : onBound y lo hi with
+      | false => rfl
+      | true => simp [hb] at h
+    have h' : countBad lo hi ys = 0 := by omega
+    simp only [List.mem_cons] at hx
+    rcases hx with rfl | hx
+    · exact hy
+    · exact ih h' x hx
+
+theorem anyBad_false : ∀ (lb ub : List K) (rows : List (List K)), anyBad lb ub rows = false →
+    AllRows OffB lb ub rows := by
+  intro lb ub rows
+  fun_induction anyBad lb ub rows with
+  | case1 l lb u ub row rows ih =>
+    intro h
+    simp only [Bool.or_eq_false_iff, decide_eq_false_iff_not, ne_eq, not_not] at h
+    exact ⟨countBad_zero l u row h.1, ih h.2⟩
+  | case2 => intros; simp [AllRows]
+
+/-- whatever the draws: when the loop returns, every row is a clipped row (or the clipped input) without entries
+on a bound, and the shape is unchanged -/
+theorem resampleLoop_spec (draw : Nat → Nat → K) (lb ub : List K) (hb : BoundsOk lb ub) :
+    ∀ (fuel c : Nat) (rows : List (List K)) (c' : Nat) (r : List (List K)),
+    rows.length ≤ lb.length → rows.length ≤ ub.length → AllRows InR lb ub rows →
+    resampleLoop draw lb ub fuel c rows = .ok (c', r) →
+    AllRows InR lb ub r ∧ AllRows OffB lb ub r ∧ r.map List.length = rows.map List.length := by
+  intro fuel
+  induction fuel with
+  | zero =>
+    intro c rows c' r h1 h2 hin h
+    simp only [resampleLoop] at h
+    split at h
+    · cases h
+    · rename_i hbad
+      simp only [Except.ok.injEq, Prod.mk.injEq] at h
+      obtain ⟨_, rfl⟩ := h
+      exact ⟨hin, anyBad_false lb ub _ (by simpa using hbad), rfl⟩
+  | succ fuel ih =>
+    intro c rows c' r h1 h2 hin h
+    simp only [resampleLoop] at h
+    split at h
+    · have hl := redrawRows_map_length draw c lb ub rows h1 h2
+      have hlen : (redrawRows draw c lb ub rows).2.length = rows.length := by
+        have := congrArg List.length hl; simpa using this
+      have hl2 := clipRows_map_length lb ub (redrawRows draw c lb ub rows).2 (by omega) (by omega)
+      have hlen2 : (clipRows lb ub (redrawRows draw c lb ub rows).2).length = rows.length := by
+        have := congrArg List.length hl2; simp only [List.length_map] at this; omega
+      obtain ⟨a1, a2, a3⟩ := ih _ _ c' r (by omega) (by omega) (clipRows_all lb ub _ hb) h
+      exact ⟨a1, a2, by rw [a3, hl2, hl]⟩
+    · rename_i hbad
+      simp only [Except.ok.injEq, Prod.mk.injEq] at h
+      obtain ⟨_, rfl⟩ := h
+      exact ⟨hin, anyBad_false lb ub _ (by simpa using hbad), rfl⟩
+
+/-- lockstep statement -> index statement -/
+theorem AllRows.index {P : K → K → List K → Prop} : ∀ (lb ub : List K) (rows : List (List K)),
+    AllRows P lb ub rows → rows.length ≤ lb.length → rows.length ≤ ub.length →
+    ∀ (i : Nat) (row : List K), rows[i]? = some row → ∃ l u, lb[i]? = some l ∧ ub[i]? = some u ∧ P l u row := by
+  intro lb ub rows
+  fun_induction AllRows P lb ub rows with
+  | case1 l lb u ub row rows ih =>
+    intro h h1 h2 i r hi
+    simp only [List.length_cons, Nat.add_le_add_iff_right] at h1 h2
+    cases i with
+    | zero =>
+      simp only [List.getElem?_cons_zero, Option.some.injEq] at hi
+      subst hi
+      exact ⟨l, u, by simp, by simp, h.1⟩
+    | succ i =>
+      simp only [List.getElem?_cons_succ] at hi ⊢
+      exact ih h.2 h1 h2 i r hi
+  | case2 lb ub rows hne =>
+    intro _ h1 h2 i r hi
+    cases rows with
+    | nil => simp at hi
+    | cons row rows =>
+      cases lb with
+      | nil => simp at h1
+      | cons l lb =>
+        cases ub with
+        | nil => simp at h2
+        | cons u ub => exact (hne l lb u ub row rows rfl rfl rfl).elim
+
+theorem BoundsOk.of_index : ∀ (lb ub : List K),
+    (∀ (i : Nat) (l u : K), lb[i]? = some l → ub[i]? = some u → l ≤ u) → BoundsOk lb ub := by
+  intro lb ub
+  fun_induction BoundsOk lb ub with
+  | case1 l lb u ub ih =>
+    intro h
+    exact ⟨h 0 l u (by simp) (by simp), ih (fun i a b ha hb => h (i + 1) a b (by simpa using ha) (by simpa using hb))⟩
+  | case2 => intros; simp [BoundsOk]
+
+/-- `random_samples` with a distribution, all draw streams -/
+theorem randomSamplesDist_spec (draw : Nat → Nat → K) (lb ub : List K) (init : List (List K)) (clip : Bool) (n c : Nat)
+    (pts : List (List K)) (h : randomSamplesDist draw lb ub init clip n = .ok (c, pts))
+    (hb : ∀ (i : Nat) (l u : K), lb[i]? = some l → ub[i]? = some u → l ≤ u) :
+    pts.map List.length = init.map List.length ∧ pts.length = lb.length ∧
+    ∀ (i : Nat) (row : List K), pts[i]? = some row → ∃ l u, lb[i]? = some l ∧ ub[i]? = some u ∧
+      ∀ x ∈ row, l ≤ x ∧ x ≤ u ∧ (clip = false → l < x ∧ x < u) := by
+  have hB := BoundsOk.of_index lb ub hb
+  simp only [randomSamplesDist] at h
+  split at h
+  · cases h
+  · rename_i hs
+    have hs1 : init.length = lb.length := by omega
+    have hs2 : ub.length = lb.length := by omega
+    have hl0 := clipRows_map_length lb ub init (by omega) (by omega)
+    have hlen0 : (clipRows lb ub init).length = init.length := by
+      have := congrArg List.length hl0; simpa using this
+    split at h
+    · rename_i hc
+      simp only [Except.ok.injEq, Prod.mk.injEq] at h
+      obtain ⟨_, rfl⟩ := h
+      refine ⟨hl0, by omega, ?_⟩
+      intro i row hi
+      obtain ⟨l, u, a1, a2, a3⟩ := AllRows.index lb ub _ (clipRows_all lb ub init hB) (by omega) (by omega) i row hi
+      exact ⟨l, u, a1, a2, fun x hx => ⟨(a3 x hx).1, (a3 x hx).2, fun hf => by simp [hc] at hf⟩⟩
+    · obtain ⟨a1, a2, a3⟩ := resampleLoop_spec draw lb ub hB _ _ _ c pts (by omega) (by omega)
+        (clipRows_all lb ub init hB) h
+      have hlen : pts.length = init.length := by
+        have := congrArg List.length (a3.trans hl0); simpa using this
+      refine ⟨a3.trans hl0, by omega, ?_⟩
+      intro i row hi
+      obtain ⟨l, u, b1, b2, b3⟩ := AllRows.index lb ub _ (AllRows.and lb ub _ a1 a2) (by omega) (by omega) i row hi
+      refine ⟨l, u, b1, b2, fun x hx => ?_⟩
+      have hr := b3.1 x hx
+      have ho := (onBound_false x l u).mp (b3.2 x hx)
+      exact ⟨hr.1, hr.2, fun _ => ⟨lt_of_le_of_ne hr.1 (Ne.symm ho.1), lt_of_le_of_ne hr.2 ho.2⟩⟩
+
+/-- column `j` of a matrix all of whose rows are longer than `j` -/
+theorem filterMap_col (j : Nat) : ∀ (q : List (List K)), (∀ row ∈ q, j < row.length) →
+    (q.filterMap (·[j]?)).length = q.length ∧
+    ∀ (i : Nat), (q.filterMap (·[j]?))[i]? = q[i]?.bind (·[j]?) := by
+  intro q
+  induction q with
+  | nil => intro _; simp
+  | cons row q ih =>
+    intro h
+    have hj : j < row.length := h row (by simp)
+    obtain ⟨i1, i2⟩ := ih (fun r hr => h r (by simp [hr]))
+    have e0 : row[j]? = some row[j] := by simp [hj]
+    simp only [List.filterMap_cons, e0, List.length_cons, i1, true_and]
+    intro i
+    cases i with
+    | zero => simp [hj]
+    | succ i => simp [i2 i]
+
+/-- `samplepts` with a distribution: `npts` points of `len(lb)` coordinates, each STRICTLY inside its range -/
+theorem sampleptsDist_spec (draw : Nat → Nat → K) (lb ub : List K) (npts : Nat) (init : List (List K)) (n c : Nat)
+    (pts : List (List K)) (h : sampleptsDist draw lb ub npts init n = .ok (c, pts))
+    (hrows : ∀ row ∈ init, row.length = npts)
+    (hb : ∀ (i : Nat) (l u : K), lb[i]? = some l → ub[i]? = some u → l ≤ u) :
+    pts.length = npts ∧ ∀ p ∈ pts, p.length = lb.length ∧
+      ∀ (i : Nat) (v : K), p[i]? = some v → ∃ l u, lb[i]? = some l ∧ ub[i]? = some u ∧ l < v ∧ v < u := by
+  simp only [sampleptsDist] at h
+  cases hr : randomSamplesDist draw lb ub init false n with
+  | error e => simp [hr] at h
+  | ok r =>
+    obtain ⟨c0, q⟩ := r
+    simp only [hr, Except.ok.injEq, Prod.mk.injEq] at h
+    obtain ⟨_, rfl⟩ := h
+    obtain ⟨s1, s2, s3⟩ := randomSamplesDist_spec draw lb ub init false n c0 q hr hb
+    have hq : ∀ row ∈ q, row.length = npts := by
+      intro row hrow
+      obtain ⟨i, hi⟩ := List.getElem?_of_mem hrow
+      have e1 : (q.map List.length)[i]? = some row.length := by simp [hi]
+      rw [s1] at e1
+      simp only [List.getElem?_map, Option.map_eq_some_iff] at e1
+      obtain ⟨r0, hr0, hr1⟩ := e1
+      rw [← hr1]
+      exact hrows r0 (List.mem_of_getElem? hr0)
+    refine ⟨by simp, ?_⟩
+    intro p hp
+    simp only [List.mem_map, List.mem_range] at hp
+    obtain ⟨j, hj, rfl⟩ := hp
+    obtain ⟨c1, c2⟩ := filterMap_col j q (fun row hrow => by rw [hq row hrow]; exact hj)
+    refine ⟨by rw [c1, s2], ?_⟩
+    intro i v hv
+    rw [c2 i] at hv
+    cases hqi : q[i]? with
+    | none => simp [hqi] at hv
+    | some row =>
+      simp only [hqi, Option.bind_some] at hv
+      obtain ⟨l, u, b1, b2, b3⟩ := s3 i row hqi
+      have := b3 v (List.mem_of_getElem? hv)
+      exact ⟨l, u, b1, b2, (this.2.2 rfl).1, (this.2.2 rfl).2⟩
+
+end DistSamples
+end MysticVerif.Ens
+
+/-! ## member creation with object identity -/
+namespace MysticVerif.Ens
+section Template
+variable {S : Type}
+
+/-- a new ensemble: the `n` members are the `n` next free addresses, each holds the template's state with its id set,
+nothing allocated before is changed -/
+theorem initMembers_new (setId : S → Nat → S) (t at_ : Nat) : ∀ (n i : Nat) (h : Store S), t < h.next →
+    (initMembers setId t at_ i h (List.replicate n none)).2 = List.range' h.next n ∧
+    (initMembers setId t at_ i h (List.replicate n none)).1.next = h.next + n ∧
+    (∀ a, a < h.next → (initMembers setId t at_ i h (List.replicate n none)).1.get a = h.get a) ∧
+    (∀ k, k < n → (initMembers setId t at_ i h (List.replicate n none)).1.get (h.next + k) = setId (h.get t) (i + k + at_)) := by
+  intro n
+  induction n with
+  | zero => intro i h _; simp [initMembers]
+  | succ n ih =>
+    intro i h ht
+    have ht' : t < (h.alloc (setId (h.get t) (i + at_))).next := by simp only [Store.alloc]; omega
+    obtain ⟨a1, a2, a3, a4⟩ := ih (i + 1) (h.alloc (setId (h.get t) (i + at_))) ht'
+    have hne : t ≠ h.next := by omega
+    have hget : (h.alloc (setId (h.get t) (i + at_))).get t = h.get t := by simp [Store.alloc, hne]
+    have hnext : (h.alloc (setId (h.get t) (i + at_))).next = h.next + 1 := rfl
+    simp only [List.replicate_succ, initMembers]
+    refine ⟨?_, ?_, ?_, ?_⟩
+    · rw [a1, hnext]; simp [List.range'_succ]
+    · rw [a2, hnext]; omega
+    · intro a ha
+      rw [a3 a (by rw [hnext]; omega)]
+      have : a ≠ h.next := by omega
+      simp [Store.alloc, this]
+    · intro k hk
+      cases k with
+      | zero =>
+        simp only [Nat.add_zero]
+        rw [a3 h.next (by rw [hnext]; omega)]
+        simp [Store.alloc]
+      | succ k =>
+        have := a4 k (by omega)
+        rw [hnext, hget] at this
+        have e : h.next + (k + 1) = h.next + 1 + k := by omega
+        rw [e, this]
+        congr 1; omega
+
+/-- running the members at the consecutive addresses `b, b+1, .., b+n-1` advances exactly those objects -/
+theorem runMembers_range (run : Nat → S → S) : ∀ (n i0 b : Nat) (h : Store S),
+    (runMembers run i0 h (List.range' b n)).next = h.next ∧
+    (∀ a, (a < b ∨ b + n ≤ a) → (runMembers run i0 h (List.range' b n)).get a = h.get a) ∧
+    (∀ k, k < n → (runMembers run i0 h (List.range' b n)).get (b + k) = run (i0 + k) (h.get (b + k))) := by
+  intro n
+  induction n with
+  | zero => intro i0 b h; simp [runMembers]
+  | succ n ih =>
+    intro i0 b h
+    obtain ⟨a1, a2, a3⟩ := ih (i0 + 1) (b + 1) (h.modify b (run i0))
+    simp only [List.range'_succ, runMembers]
+    refine ⟨by rw [a1]; rfl, ?_, ?_⟩
+    · intro a ha
+      rw [a2 a (by omega)]
+      have : a ≠ b := by omega
+      simp [Store.modify, this]
+    · intro k hk
+      cases k with
+      | zero =>
+        simp only [Nat.add_zero]
+        rw [a2 b (by omega)]
+        simp [Store.modify]
+      | succ k =>
+        have := a3 k (by omega)
+        have e : b + (k + 1) = b + 1 + k := by omega
+        have hne : b + 1 + k ≠ b := by omega
+        rw [e, this]
+        simp only [Store.modify, hne, if_false]
+        congr 1; omega
+
+/-- a first solve of a new ensemble -/
+theorem solveNew_spec (setId : S → Nat → S) (run : Nat → S → S) (t at_ n : Nat) (h : Store S) (ht : t < h.next) :
+    (solveNew setId run t at_ n h).2 = List.range' h.next n ∧
+    (solveNew setId run t at_ n h).1.next = h.next + n ∧
+    (∀ a, a < h.next → (solveNew setId run t at_ n h).1.get a = h.get a) ∧
+    (∀ k, k < n → (solveNew setId run t at_ n h).1.get (h.next + k) = run k (setId (h.get t) (k + at_))) := by
+  obtain ⟨a1, a2, a3, a4⟩ := initMembers_new setId t at_ n 0 h ht
+  simp only [solveNew]
+  rw [a1]
+  obtain ⟨b1, b2, b3⟩ := runMembers_range run n 0 h.next (initMembers setId t at_ 0 h (List.replicate n none)).1
+  refine ⟨rfl, by rw [b1, a2], ?_, ?_⟩
+  · intro a ha
+    rw [b2 a (Or.inl ha), a3 a ha]
+  · intro k hk
+    rw [b3 k hk, a4 k hk]
+    simp
+
+/-- `__init_allSolvers` in general (some slots already occupied, e.g. a second `Step`): every EMPTY slot receives a
+fresh object (an address that was not allocated before - so neither the template nor any existing member) holding the
+template's state with its id set; occupied slots are kept; no existing object is changed -/
+theorem initMembers_general (setId : S → Nat → S) (t at_ : Nat) : ∀ (slots : List (Option Nat)) (i : Nat) (h : Store S),
+    t < h.next →
+    (initMembers setId t at_ i h slots).2.length = slots.length ∧
+    h.next ≤ (initMembers setId t at_ i h slots).1.next ∧
+    (∀ a, a < h.next → (initMembers setId t at_ i h slots).1.get a = h.get a) ∧
+    (∀ k : Nat, slots[k]? = some none → ∃ a, (initMembers setId t at_ i h slots).2[k]? = some a ∧ h.next ≤ a ∧
+        a < (initMembers setId t at_ i h slots).1.next ∧
+        (initMembers setId t at_ i h slots).1.get a = setId (h.get t) (i + k + at_)) ∧
+    (∀ (k a : Nat), slots[k]? = some (some a) → (initMembers setId t at_ i h slots).2[k]? = some a) := by
+  intro slots
+  induction slots with
+  | nil => intro i h _; simp [initMembers]
+  | cons s rest ih =>
+    intro i h ht
+    cases s with
+    | none =>
+      have ht' : t < (h.alloc (setId (h.get t) (i + at_))).next := by simp only [Store.alloc]; omega
+      obtain ⟨a1, a2, a3, a4, a5⟩ := ih (i + 1) (h.alloc (setId (h.get t) (i + at_))) ht'
+      have hne : t ≠ h.next := by omega
+      have hget : (h.alloc (setId (h.get t) (i + at_))).get t = h.get t := by simp [Store.alloc, hne]
+      have hnext : (h.alloc (setId (h.get t) (i + at_))).next = h.next + 1 := rfl
+      simp only [initMembers]
+      refine ⟨by simp [a1], by omega, ?_, ?_, ?_⟩
+      · intro a ha
+        rw [a3 a (by rw [hnext]; omega)]
+        have : a ≠ h.next := by omega
+        simp [Store.alloc, this]
+      · intro k hk
+        cases k with
+        | zero =>
+          refine ⟨h.next, by simp, le_refl _, by omega, ?_⟩
+          rw [a3 h.next (by rw [hnext]; omega)]
+          simp [Store.alloc]
+        | succ k =>
+          simp only [List.getElem?_cons_succ] at hk
+          obtain ⟨a, b1, b2, b3, b4⟩ := a4 k hk
+          refine ⟨a, by simpa using b1, by omega, b3, ?_⟩
+          rw [b4, hget]
+          congr 1; omega
+      · intro k a hk
+        cases k with
+        | zero => simp at hk
+        | succ k =>
+          simp only [List.getElem?_cons_succ] at hk ⊢
+          exact a5 k a hk
+    | some a0 =>
+      obtain ⟨a1, a2, a3, a4, a5⟩ := ih (i + 1) h ht
+      simp only [initMembers]
+      refine ⟨by simp [a1], a2, a3, ?_, ?_⟩
+      · intro k hk
+        cases k with
+        | zero => simp at hk
+        | succ k =>
+          simp only [List.getElem?_cons_succ] at hk
+          obtain ⟨a, b1, b2, b3, b4⟩ := a4 k hk
+          refine ⟨a, by simpa using b1, b2, b3, ?_⟩
+          rw [b4]
+          congr 1; omega
+      · intro k a hk
+        cases k with
+        | zero => simp at hk; simp [hk]
+        | succ k =>
+          simp only [List.getElem?_cons_succ] at hk ⊢
+          exact a5 k a hk
+
+end Template
 end MysticVerif.Ens
